@@ -1,7 +1,7 @@
 (* C14 — Translations are flagged iff their format arguments disagree with the source.
    Over argument signatures (what the parsers of C11-C13 report). *)
 From Coq Require Import List ZArith NArith Bool.
-From I18n Require Import Model.MsgFormat Proofs.MsgFormat.
+From I18n Require Import Model.MsgFormat Model.MsgFormatPy Proofs.MsgFormat Generated.MsgFormatSrc Proofs.MsgFormatSrc.
 Import ListNotations.
 
 (* c-format: count and per-position type *)
@@ -106,7 +106,54 @@ Theorem C14_plain_message_compared : forall m,
 Proof. exact plain_message_compared. Qed.
 Print Assumptions C14_plain_message_compared.
 
+(* ---------- source tie ----------
+   Generated/MsgFormatSrc.v is rewritten at the start of every check by tools/gen/gen_msgformat_src.py from the python ast
+   of lib/check/msgformat/*.py; the definitions src_* below are that translation.  They equal the model the theorems above
+   are about, for all inputs, under the input assumptions the harness guarantees (maps and key sets sorted by the code's
+   sort_key, distinct keys; python-format rows carry one type name).  A behavioural edit of check_args / of the tail of
+   check_message changes the generated text and these no longer compile. *)
+Theorem C14_source_tie_c : forall src dst lastint om,
+  src_c_check_args src dst lastint om = c_check_args src dst lastint om.
+Proof. exact src_c_check_args_eq. Qed.
+Print Assumptions C14_source_tie_c.
+
+Theorem C14_source_tie_python : forall ss ds sm dm om,
+  wf_map sm -> wf_map dm -> single_typed sm -> single_typed dm ->
+  src_py_check_args ss ds sm dm om = py_check_args ss ds sm dm om.
+Proof. exact src_py_check_args_eq. Qed.
+Print Assumptions C14_source_tie_python.
+
+Theorem C14_source_tie_pybrace : forall src dst om,
+  wf_map src -> wf_map dst -> src_brace_check_args src dst om = map_check_args true src dst om.
+Proof. exact src_brace_check_args_eq. Qed.
+Print Assumptions C14_source_tie_pybrace.
+
+Theorem C14_source_tie_perlbrace : forall src dst om,
+  ksorted src -> ksorted dst -> src_perl_check_args src dst om = perl_check_args src dst om.
+Proof. exact src_perl_check_args_eq. Qed.
+Print Assumptions C14_source_tie_perlbrace.
+
+(* check_message from `if flags.fuzzy: return` to its end; what precedes it (plan_head_exits, plan_head) is not translated *)
+Theorem C14_source_tie_check_message : forall m,
+  plan_message m = if plan_head_exits m then [] else plan_head m ++ src_check_message_tail m.
+Proof. exact src_check_message_tail_eq. Qed.
+Print Assumptions C14_source_tie_check_message.
+
 (* non-vacuity *)
+Example C14_src_ex_wf :
+  wf_map [(KInt 0, [[105;110;116]%N], true); (KStr [97]%N, [[115;116;114]%N], false)] /\
+  single_typed [(KInt 0, [[105;110;116]%N], true); (KStr [97]%N, [[115;116;114]%N], false)].
+Proof.
+  split; [split|].
+  - repeat constructor; cbn; intuition discriminate.
+  - repeat constructor.
+  - intros k t b [H|[H|[]]]; inversion H; eauto.
+Qed.
+Example C14_src_ex : src_brace_check_args [(KInt 0, [[105;110;116]%N], true); (KStr [97]%N, [[115;116;114]%N], false)]
+                                          [(KInt 0, [[115;116;114]%N], false); (KStr [98]%N, [[115;116;114]%N], false)] true
+  = [ATypeMismatch [[115;116;114]%N] [[105;110;116]%N]; AUnknown (KStr [98]%N); AMissing (KStr [97]%N)].
+Proof. vm_compute. reflexivity. Qed.
+
 Example C14_ex : c_check_args [[105;110;116]%N; [99;104;97;114;32;42]%N] [[99;104;97;114;32;42]%N] (fun _ => false) false
   = [AMissingN 1 2; ATypeMismatch [[99;104;97;114;32;42]%N] [[105;110;116]%N]].
 Proof. vm_compute. reflexivity. Qed.
